@@ -72,3 +72,13 @@ def fill(add):
         "Bucket histories written by the library (all histories up to length 3 over short/long-non-ASCII/foreign/tombstone; 12 representative in quick) x every damage (each record cut at every byte length, every single-bit flip, each separating newline deleted, 11 garbage lines at every boundary, transposed/duplicated records and fragments) x 0-2 further appends; every lookup entry point of the three flavours and list_sync must equal the reference decoding of the damaged bytes, untouched records must survive, no entry that was not written verbatim.",
         "Trusted: vlib/ref.py decoder (CR handling of a line is accepted in any of three variants as long as all entry points agree).",
         "DESIGN.md 4/C06", "seqx")
+    add("C08", "exploration",
+        "bounded-exhaustive input and history enumeration through the real API with a table oracle",
+        "Prior key state x keyed/by-address writer x side x flavour x sizes around the mmap threshold x chunking x declared size (none, n, n-1, n+1, 0, 2n+3) x 7 declared-integrity forms x algorithms: the commit's reply variant is compared with the table, and on rejection the key's mapping is compared before/after through sync and async lookups; on acceptance the key must resolve to the data.",
+        "A correct digest under another algorithm than the writer's may be accepted or rejected (property text and API doc disagree); only 'rejected => nothing mapped' is demanded there.",
+        "DESIGN.md 4/C08", "seqx")
+    add("C11", "exploration",
+        "bounded-exhaustive input enumeration through the real API with exact structural comparison",
+        "Full products JSON-metadata-value table (about 1.1k values of depth <= 2) x entry point x flavour and timestamp table (0 .. 2^128-1) x hostile keys x entry point x flavour, raw metadata table, declared sizes; defaults (time window in Unix ms, counted size, null metadata) for 5 entry points x 5 sizes x chunkings; read back through metadata*, index::find*, list_sync.",
+        "Trusted: Python json/Decimal for exact number comparison.",
+        "DESIGN.md 4/C11", "seqx")
